@@ -49,6 +49,19 @@ fn main() {
         std::process::exit(2);
     }
     let id = args[1].clone();
+    if id == "audit" {
+        match e3::audit() {
+            Ok(r) => {
+                println!("shim-vs-strace audit ok: {r}");
+                std::process::exit(0);
+            }
+            Err(e) if e.starts_with("SKIP") => {
+                println!("shim-vs-strace audit not run: {e}");
+                std::process::exit(0);
+            }
+            Err(e) => machinery_error(format!("shim-vs-strace audit failed: {e}")),
+        }
+    }
     if args.get(2).map(String::as_str) == Some("--child") {
         let a = args.get(3).cloned().unwrap_or_default();
         match id.as_str() {
